@@ -165,24 +165,23 @@ func (c *cliClient) PreCall(e *Engine, st *State, call *ast.CallExpr, callee *ty
 			return st.WithExt("dirty:"+e.objKey(o), "")
 		}
 	}
-	// C16/output: SQL is printed under err == nil, followed by a blank line.
-	if callee != nil && callee.FullName() == "fmt.Fprintf" && len(call.Args) >= 2 && c.output != nil && c.isOutput(e, call.Args[0]) {
-		if o := objOf(info, e.ResolveExpr(call.Args[0])); c.wrappers[o] {
+	// C16/output: SQL is printed under err == nil, followed by a blank line. The write may be spelled
+	// fmt.Fprintf(output, "%s\n\n", sql), io.WriteString(output, sql+"\n\n") or output.Write([]byte(sql+"\n\n")).
+	if wr := c.outputWrite(e, call, callee); wr != nil {
+		if o := objOf(info, e.ResolveExpr(wr.dst)); c.wrappers[o] {
 			st = st.WithExt("dirty:"+e.objKey(o), "1")
 		}
 		c.fprintfs++
 		key := fmt.Sprintf("%s output write #%d", c.where(e), c.ordinal(e, call, func(cc *ast.CallExpr) bool {
-			f := Callee(info, cc)
-			return f != nil && f.FullName() == "fmt.Fprintf" && len(cc.Args) >= 2 && c.isOutput(e, cc.Args[0])
+			return c.outputWrite(e, cc, Callee(info, cc)) != nil
 		}))
-		format, isConst := constString(info, call.Args[1])
-		okFmt := isConst && format == "%s\n\n" && len(call.Args) == 3
+		okFmt := wr.okShape
 		errKey := st.Ext("compileerr")
 		f := st.Get(errKey)
 		okErr := errKey != "" && f != nil && f.Nil == 1
 		okSQL := false
-		if len(call.Args) == 3 {
-			if k := e.CanonSt(st, call.Args[2]); k.OK && k.Key == st.Ext("compilesql") {
+		if wr.sql != nil {
+			if k := e.CanonSt(st, wr.sql); k.OK && k.Key == st.Ext("compilesql") {
 				okSQL = true
 			}
 		}
@@ -191,7 +190,7 @@ func (c *cliClient) PreCall(e *Engine, st *State, call *ast.CallExpr, callee *ty
 		if !ok {
 			var why []string
 			if !okFmt {
-				why = append(why, "format is not \"%s\\n\\n\"")
+				why = append(why, "what is written is not the SQL followed by \"\\n\\n\"")
 			}
 			if !okErr {
 				why = append(why, "not dominated by `err == nil` of the Compile call")
@@ -202,6 +201,68 @@ func (c *cliClient) PreCall(e *Engine, st *State, call *ast.CallExpr, callee *ty
 			e.Site("C16/output", key, call, false, "standard output would not be exactly the library's SQL plus a blank line: "+strings.Join(why, "; "))
 		}
 		return st
+	}
+	return nil
+}
+
+// outWrite: one write of SQL text to the output, whatever its spelling.
+type outWrite struct {
+	dst     ast.Expr
+	sql     ast.Expr // the non-constant part
+	okShape bool     // the text is <sql> followed by exactly "\n\n"
+}
+
+func (c *cliClient) outputWrite(e *Engine, call *ast.CallExpr, callee *types.Func) *outWrite {
+	info := e.Info
+	if c.output == nil {
+		return nil
+	}
+	shape := func(x ast.Expr) (ast.Expr, bool) {
+		pieces := e.flattenConcat(x, nil, 0)
+		var sql ast.Expr
+		tail := ""
+		for _, pc := range pieces {
+			if s, ok := constString(info, pc); ok {
+				if sql == nil && s != "" {
+					return nil, false // constant text before the SQL
+				}
+				tail += s
+				continue
+			}
+			if sql != nil || tail != "" {
+				return nil, false
+			}
+			sql = pc
+		}
+		return sql, sql != nil && tail == "\n\n"
+	}
+	switch {
+	case callee != nil && callee.FullName() == "fmt.Fprintf" && len(call.Args) >= 2 && c.isOutput(e, call.Args[0]):
+		w := &outWrite{dst: call.Args[0]}
+		format, isConst := constString(info, call.Args[1])
+		w.okShape = isConst && format == "%s\n\n" && len(call.Args) == 3
+		if len(call.Args) == 3 {
+			w.sql = call.Args[2]
+		}
+		return w
+	case callee != nil && callee.FullName() == "io.WriteString" && len(call.Args) == 2 && c.isOutput(e, call.Args[0]):
+		w := &outWrite{dst: call.Args[0]}
+		w.sql, w.okShape = shape(call.Args[1])
+		return w
+	case callee != nil && (callee.FullName() == "fmt.Fprint" || callee.FullName() == "fmt.Fprintln") && len(call.Args) >= 2 && c.isOutput(e, call.Args[0]):
+		return &outWrite{dst: call.Args[0]} // spacing rules of Fprint/Fprintln: not the documented format
+	}
+	// output.Write([]byte(text)) / output.WriteString(text)
+	if sel, ok := ast.Unparen(call.Fun).(*ast.SelectorExpr); ok && len(call.Args) == 1 && (sel.Sel.Name == "Write" || sel.Sel.Name == "WriteString") && c.isOutput(e, sel.X) {
+		w := &outWrite{dst: sel.X}
+		arg := ast.Unparen(call.Args[0])
+		if conv, ok := arg.(*ast.CallExpr); ok && len(conv.Args) == 1 {
+			if tv, isT := info.Types[conv.Fun]; isT && tv.IsType() {
+				arg = conv.Args[0]
+			}
+		}
+		w.sql, w.okShape = shape(arg)
+		return w
 	}
 	return nil
 }
